@@ -5,7 +5,7 @@ from .. import core, mt_check
 def run(tier, seed, verdict):
     quick = tier == "quick"
     procs = 5   # each process runs 2-7 busy threads; more processes than cores/3 only adds contention
-    iters = 1600 if quick else 60000
+    iters = 1600 if quick else 16000
     victims = (0, 101, 102, 104, 103, 105)
     res = mt_check.MtResult()
     # ASan: freed callback storage is poisoned the moment deregistration returns
